@@ -50,8 +50,12 @@ Print Assumptions C17_no_repeat.
 (* ... every other message is the one of the executor task just run: the same-host retry, the PREPARE after UNPREPARED,
    or the re-send after PREPARED (C19) ... *)
 Theorem C17_other_sends_are_tasks : forall c s o s' ev h m cz, step c s o = (s', ev) -> In (Sent h m cz) ev ->
-  plan_msg m cz \/ exists k t, o = Run k /\ nth_error (queue s) k = Some t /\ task_sends s t h m cz
-                            /\ pool_of s (task_host t) = PHealthy.
+  plan_msg m cz \/ (exists k t, o = Run k /\ nth_error (queue s) k = Some t /\ task_sends s t h m cz
+                            /\ pool_of s (task_host t) = PHealthy)
+  \/ (* executor-first schedule: the retry task ran inside the step that took the decision *)
+     (exists i k tag dcl reuse a, o = Resp i (RRetryable k tag) /\ inline_retry c = true /\ nth_error (attempts s) i = Some a /\
+        task_sends (bump_counters (tick_consult (set_attempts s (mark_done i (attempts s)))) dcl) (TRetry reuse (a_host a)) h m cz
+        /\ pool_of s (a_host a) = PHealthy).
 Proof. exact step_sent. Qed.
 Print Assumptions C17_other_sends_are_tasks.
 
@@ -120,6 +124,17 @@ Theorem C17_replan_master_nodup : forall m p, NoDup p -> NoDup (replan_master m 
 Proof. exact replan_master_ok. Qed.
 Print Assumptions C17_replan_master_nodup.
 
+(* executor-first schedule (the executor runs the retry before _handle_retry_decision records the failure): the failed host
+   is recorded AFTER the plan was exhausted, and NoHostAvailable -- whose errors are the live _errors -- still lists it *)
+Example C17_executor_first_lists_failed_host :
+  let c := {| pol := scripted [(DNextHost, None)]; fut_ps := None; known := []; pv := 4; tgt := None; inline_retry := true |} in
+  let s0 := init [0; 1] None [(0, PHealthy); (1, PMissing)] (Some 1) false false 0 None in
+  let '(s, evs) := exec c s0 [Start; Resp 0%nat (RRetryable KOverloaded 7)] in
+  fin_exc s = Some XNoHost /\ errors s = [(1, EDown); (0, EResp KOverloaded 7)] /\
+  evs = [Sent 0 (MOrig (Some 1)) CPlan; Consult 0 0 KOverloaded 7 0 (Some 1) DNextHost None; ErrSet 1 EDown;
+         ErrSet 0 (EResp KOverloaded 7)].
+Proof. vm_compute. repeat split. Qed.
+
 (* explicit host target: every message of every page fetch goes to that host *)
 Theorem C17_target_only : forall c lb pl cl idem hasp maxa ks ops s evs h, tgt c = Some h ->
   exec c (init lb (Some h) pl cl idem hasp maxa ks) ops = (s, evs) ->
@@ -130,7 +145,7 @@ Print Assumptions C17_target_only.
 (* non-vacuity: plan [2;0;1], host 2 shut down, host 0 healthy; a read timeout from 0 answered RETRY_NEXT_HOST moves on
    to host 1, whose pool is missing: NoHostAvailable lists 2 (skipped), 0 (failed) and 1 (skipped) *)
 Example C17_nonvacuous :
-  let c := {| pol := scripted [(DNextHost, None)]; fut_ps := None; known := []; pv := 4; tgt := None |} in
+  let c := {| pol := scripted [(DNextHost, None)]; fut_ps := None; known := []; pv := 4; tgt := None; inline_retry := false |} in
   let s0 := init [2; 0; 1] None [(0, PHealthy); (1, PMissing); (2, PShutdown)] (Some 1) false false 0 None in
   let '(s, evs) := exec c s0 [Start; Resp 0%nat (RRetryable KReadTimeout 7); Run 0%nat] in
   plan_sends evs = [0] /\
